@@ -25,6 +25,7 @@ package metrics
 import (
 	"fmt"
 	"runtime"
+	"sort"
 	"sync"
 	"sync/atomic"
 	"time"
@@ -489,9 +490,18 @@ func (mc *Collector) metricKey(name string, tags map[string]string) string {
 		return name
 	}
 
+	// Render the tags in sorted key order: ranging over the map directly gives
+	// the same identity a different key from call to call once it has two or
+	// more tags, which splits its events over duplicate series.
+	tagKeys := make([]string, 0, len(tags))
+	for k := range tags {
+		tagKeys = append(tagKeys, k)
+	}
+	sort.Strings(tagKeys)
+
 	key := name
-	for k, v := range tags {
-		key += ":" + k + "=" + v
+	for _, k := range tagKeys {
+		key += ":" + k + "=" + tags[k]
 	}
 	return key
 }
